@@ -370,6 +370,32 @@ fn extra_inputs() -> Vec<Vec<u8>> {
 			}
 		}
 	}
+	// nesting around and beyond each format's depth limit: a trial that gives up on depth is still just
+	// a trial that does not match
+	for depth in [127usize, 128, 129, 1022, 1023, 1024, 1025, 1500] {
+		let nest = |open: &[u8], close: &[u8], leaf: &[u8]| {
+			let mut x = vec![];
+			for _ in 0..depth {
+				x.extend_from_slice(open);
+			}
+			x.extend_from_slice(leaf);
+			for _ in 0..depth {
+				x.extend_from_slice(close);
+			}
+			x
+		};
+		v.push(nest(b"\x91", b"", b"\x01"));
+		v.push(nest(b"\x81\xa1k", b"", b"\x01"));
+		v.push(nest(b"\x81", b"\x01", b"\x01")); // nesting in map-key position
+		v.push(nest(b"\xdc\x00\x01", b"", b"\xc0"));
+		v.push(nest(b"[", b"]", b"1"));
+		v.push(nest(b"{\"a\":", b"}", b"1"));
+		v.push(nest(b"{a: ", b"}", b"1"));
+	}
+	// exact sizes around every buffer size (first document of a stream / leading comment block)
+	for l in gen::sized_streams(F::Json, false).into_iter().chain(gen::sized_streams(F::Msgpack, false)).chain(gen::yaml_layouts(false).into_iter().filter(|l| l.label.ends_with("sep0"))) {
+		v.push(l.bytes);
+	}
 	// inputs several formats accept
 	for s in ["{}", "[]", "[1, 2]", "{\"a\": 1}", "a = 1", "[t]", "[t]\na = 1\n", "k = \"a: b\"", "1", "true", "\"s\"", "- 1", "a: 1"] {
 		v.push(s.as_bytes().to_vec());
@@ -441,7 +467,7 @@ fn check_detect(t: &mut Tally, input: &[u8], d: usize, targets: &[F]) {
 		let mut explicit: HashMap<F, (Outcome, Outcome, Outcome)> = HashMap::new();
 		for &chunk in chunks {
 			let pol = policy(chunk, true, false, &marks);
-			let st = explore(if big { 0 } else if input.len() > 12 { d.min(1) } else { d }, 3000, |env| {
+			let st = explore(if big { 0 } else if input.len() > 12 { d.min(1) } else { d }, 12000, |env| {
 				let dr = detect_reader(SchedReader::new(input, env, pol.clone()));
 				let choices = env.borrow().choices();
 				t.evaluations += 1;
